@@ -17,6 +17,9 @@ from pyvc.harness import run_cases
 
 
 def run(ses):
+    from pyvc import frame as _frame
+
+    _frame.purity_obligation(ses)
     from ceos_alos2 import array as A
     from props import arraychain
 
